@@ -69,7 +69,10 @@ def _case(draw):
     A = _doc(d)
     B = _doc(d)
     cfg = gen.maybe_late(d, d.pick(FIXED_CFGS)) if d.chance(0.7) else gen.config_d(d, allow_linkify=False)
-    return {"A": A, "B": B, "cfg": cfg}
+    # a share of pairs has A preceded by neutral paragraphs, so that the whole input crosses size thresholds (16 K, 64 K)
+    # while B alone stays small
+    pad = d.pick([16400, 16400, 16400, 33000, 66000]) if d.chance(0.012) else 0
+    return {"A": A, "B": B, "cfg": cfg, "pad": pad}
 
 
 def strategy(tier: str):
@@ -118,6 +121,10 @@ SPECIAL_START = ("list_open", "blockquote_open", "table_open", "html_block", "fe
 def check(case) -> Res:
     res = Res()
     A, B = case["A"], case["B"]
+    if case.get("pad"):
+        para = "neutral paragraph number one, plain words only, sixty chars\n\n"
+        A = para * (case["pad"] // len(para) + 1) + A
+        res.cls.append("A-padded-to-scale")
     if not (A.endswith("\n") and B.endswith("\n")) or any(c in A + B for c in "\t\r\0"):
         res.cls.append("outside-domain")
         return res
